@@ -9,6 +9,16 @@ ROOT = os.path.dirname(os.path.dirname(os.path.abspath(__file__)))
 
 # id -> (level, technique, text, note, design_ref)
 CHECKS = {
+    "C06": (
+        "exploration",
+        "deterministic simulation on a discrete-event clock: 4-20 consecutive iterations of a periodic job (periods 1 s..1 h) in virtual time with seeded duration/outcome profiles; cadence oracle over the recorded reschedule calls",
+        "One recurring Job(deferred_by=p[, deferred_until]) runs 4-20 iterations on each broker with constant/growing/shrinking/"
+        "random/overrunning durations, failures with retry chains, optional TTL. For each completed iteration: exactly one "
+        "successor, counter reset, timestamp restarted, F < S' <= F + p and S' >= S + p, first run not before deferred_until, no "
+        "more fresh deliveries than schedulings.",
+        "Samples scenarios; cron schedules cannot be exercised (croniter not installed) - stated in the evidence. In-memory/Redis periods are kept short because those brokers poll.",
+        "DESIGN.md section 8 C06",
+    ),
     "C04": (
         "exploration",
         "deterministic simulation on a discrete-event clock: whole retry chains (default exponential and table policies, forced retries) in virtual time; reference evaluation of the chain",
